@@ -796,6 +796,18 @@ def _list_method(interp, lst, name):
 def _dict_method(interp, d, name):
     if name == "get":
         def get(k, default=None):
+            if isinstance(k, (SInt,)) and len(d) > 64 and all(isinstance(x, (str, int)) for x in d.values()) \
+                    and (default is None or isinstance(default, str)):
+                # big code table with a symbolic integer key: the table is used as an uninterpreted function
+                # (dict identity, key) -> text; the same lookup elsewhere yields the very same opaque value
+                axiom("a lookup in a table of more than 64 entries with a symbolic key is an uninterpreted function of (table, key)")
+                c = ctx()
+                ln = z3.Int(f"dictget_len_{id(d)}_{k.t.get_id()}")
+                key = ("dictget", id(d), k.t.sexpr(), repr(default))
+                if key not in c.ghost:
+                    c.ghost[key] = True
+                    c.assume(ln >= 1)
+                return mk_rope("str", [BX(key, ln)])
             v = ops.sym_key_lookup(d, k)
             return default if v is MISSING else v
         return INative("dict.get", get)
